@@ -42,6 +42,43 @@ def stride_stores(S: Sem, target_text: str) -> List[Tuple[ast.stmt, Tuple[int, .
     return out
 
 
+def _arange_op(S: Sem, e: ast.AST, at: int, op) -> bool:
+    """e resolves to np.arange(N) <op> 2"""
+    r = S.resolve(e, at) if isinstance(e, ast.Name) else e
+    return isinstance(r, ast.BinOp) and isinstance(r.op, op) and const_of(r.right) == 2 and isinstance(r.left, ast.Call) and call_name(r.left) in ("np.arange", "numpy.arange") \
+        and len(r.left.args) == 1
+
+
+def _is_orbital_index(S: Sem, e: ast.AST, at: int) -> bool:
+    return _arange_op(S, e, at, ast.FloorDiv)
+
+
+def _is_broadcast_of_orbital(S: Sem, e: ast.AST, at: int, axis: int) -> bool:
+    """orb[:, None] (axis 0) / orb[None, :] (axis 1)"""
+    if not (isinstance(e, ast.Subscript) and isinstance(e.slice, ast.Tuple) and len(e.slice.elts) == 2 and _is_orbital_index(S, e.value, at)):
+        return False
+    a, b = e.slice.elts
+    full = lambda x: isinstance(x, ast.Slice) and x.lower is None and x.upper is None and x.step is None
+    none = lambda x: isinstance(x, ast.Constant) and x.value is None
+    return (full(a) and none(b)) if axis == 0 else (none(a) and full(b))
+
+
+def _is_same_spin_mask(S: Sem, e: ast.AST, at: int) -> bool:
+    r = S.resolve(e, at) if isinstance(e, ast.Name) else e
+    if not (isinstance(r, ast.Compare) and len(r.ops) == 1 and isinstance(r.ops[0], ast.Eq)):
+        return False
+    a, b = r.left, r.comparators[0]
+
+    def spin_b(x, axis):
+        if not (isinstance(x, ast.Subscript) and isinstance(x.slice, ast.Tuple) and len(x.slice.elts) == 2 and _arange_op(S, x.value, at, ast.Mod)):
+            return False
+        p, q = x.slice.elts
+        full = lambda y: isinstance(y, ast.Slice) and y.lower is None and y.upper is None and y.step is None
+        none = lambda y: isinstance(y, ast.Constant) and y.value is None
+        return (full(p) and none(q)) if axis == 0 else (none(p) and full(q))
+    return (spin_b(a, 0) and spin_b(b, 1)) or (spin_b(a, 1) and spin_b(b, 0))
+
+
 def doubled_from(S: Sem, new_expr: ast.AST, at: int, naxes: int) -> Tuple[Optional[Set[Tuple[int, ...]]], Optional[str], str]:
     """(offset tuples written, resolved text of the spinless source, description) for the array denoted by `new_expr`.
     naxes = number of interlaced axes (1 for centres/shifts, 2 for matrices)."""
@@ -52,8 +89,28 @@ def doubled_from(S: Sem, new_expr: ast.AST, at: int, naxes: int) -> Tuple[Option
         ax = const_of(kwarg(r, "axis", 2), None)
         if ax == 0:
             return {(0,), (1,)}, norm(r.args[0]), "np.repeat(old, 2, axis=0)"
+    # gather with the doubling index: position p of the doubled axis takes orbital p // 2  →  old[arange(2n) // 2]
+    if naxes == 1 and isinstance(r, ast.Subscript) and _is_orbital_index(S, r.slice, at):
+        return {(0,), (1,)}, norm(r.value), "gather old[arange(2n) // 2]"
     name = norm(e)
     st = stride_stores(S, name)
+    if not st and naxes == 2 and isinstance(e, ast.Name):
+        # NEW[:, same_spin] = OLD[:, orb[:, None], orb[None, :]][:, same_spin]  with same_spin = (spin[:, None] == spin[None, :]), spin = arange(2n) % 2,
+        # orb = arange(2n) // 2, NEW created as zeros: element (p, q) = OLD[p//2, q//2] when p ≡ q (mod 2), zero otherwise
+        for st2 in ast.walk(S.fi.node if S.fi is not None else ast.Module(body=[], type_ignores=[])):
+            if isinstance(st2, ast.Assign) and isinstance(st2.targets[0], ast.Subscript) and norm(st2.targets[0].value) == name \
+                    and isinstance(st2.targets[0].slice, ast.Tuple) and len(st2.targets[0].slice.elts) == 2:
+                mk = st2.targets[0].slice.elts[1]
+                v = st2.value
+                at2 = S.cfg.node(st2)
+                if _is_same_spin_mask(S, mk, at2) and isinstance(v, ast.Subscript) and isinstance(v.slice, ast.Tuple) and len(v.slice.elts) == 2 \
+                        and norm(v.slice.elts[1]) == norm(mk) and isinstance(v.value, ast.Subscript) and isinstance(v.value.slice, ast.Tuple) and len(v.value.slice.elts) == 3:
+                    o1, o2 = v.value.slice.elts[1], v.value.slice.elts[2]
+                    if _is_broadcast_of_orbital(S, o1, at2, 0) and _is_broadcast_of_orbital(S, o2, at2, 1):
+                        zd = [d_ for d_ in S.du.reaching(name, at2) if d_.kind == "assign"]
+                        zeros = zd[0].value if len(zd) == 1 else None
+                        if isinstance(zeros, ast.Call) and call_name(zeros) in ("np.zeros", "numpy.zeros"):
+                            return {(0, 0), (1, 1)}, S.rnorm(v.value.value, at2), "masked gather OLD[p//2, q//2] for p ≡ q (mod 2)"
     if not st:
         return None, None, f"no stride-2 stores into `{name}` and no np.repeat"
     vals = {S.rnorm(v, S.cfg.node(s)) for s, _, v in st}
